@@ -374,8 +374,19 @@ Definition propose (s : sys) (m : method) (cs : list cand) (ch : choice) : list 
 Definition restrict (prop cur : list cand) : list cand :=
   filter (fun c => existsb (fun d => c_node d =? c_node c) prop) cur.
 
-Definition validate (s : sys) (m : method) (prop cur : list cand) : list cand :=
-  let mp := mapping_of s (method_reason m) in
+(* The reason each validator is constructed with in validation.go (NewEmptinessValidator: Empty;
+   NewSingleConsolidationValidator / NewMultiConsolidationValidator: Underutilized). Drift and static
+   drift have no validator. The validator rebuilds the budget mapping for THIS reason. *)
+Definition validator_reason (m : method) : reason :=
+  match m with
+  | MEmptiness => Empty
+  | MMulti | MSingle => Underutilized
+  | MDrift | MStaticDrift => Drifted
+  end.
+
+(* a validator constructed with reason [r] *)
+Definition validate_under (r : reason) (s : sys) (m : method) (prop cur : list cand) : list cand :=
+  let mp := mapping_of s r in
   let cur' := restrict prop cur in
   match m with
   | MEmptiness => validate_filter mp cur'
@@ -385,6 +396,9 @@ Definition validate (s : sys) (m : method) (prop cur : list cand) : list cand :=
       if (length cur' =? length prop)%nat && validate_all mp cur' then cur' else []
   | MDrift | MStaticDrift => prop       (* no validation step *)
   end.
+
+Definition validate (s : sys) (m : method) (prop cur : list cand) : list cand :=
+  validate_under (validator_reason m) s m prop cur.
 
 (* Queue.StartCommand: mark the candidates, remember them in the queue *)
 Definition start_command (s : sys) (sel : list cand) : sys :=
